@@ -32,13 +32,15 @@ pub struct Cfg { pub kind: Kind, pub n: usize, pub m: usize, pub streams: usize,
     pub replace: bool,
     /// (request = end_all only) `cancel_all_streams()` is issued right before `gracefully_end_all_streams()`: cancelled streams still drain what is buffered, the
     /// graceful end must still wait for everything accepted before
-    pub cancel_first: bool }
+    pub cancel_first: bool,
+    /// the consumers' tasks fail once they are done with their streams: every stream is dropped while its thread unwinds from a panic (its id must become reusable all the same)
+    pub unwind_drops: bool }
 impl Cfg {
     pub fn targeted(&self, i: usize) -> bool { match &self.req { Req::CancelAll | Req::EndAll => true, Req::End(v) => v.contains(&i) } }
     pub fn json(&self) -> J {
         J::obj().with("kind", J::s(self.kind.name())).with("N", J::i(self.n as i64)).with("M", J::i(self.m as i64)).with("streams", J::i(self.streams as i64))
             .with("request", J::s(format!("{:?}", self.req))).with("producers", J::Arr(self.entries.iter().map(|e| J::s(e.name())).collect()))
-            .with("events_per_producer", J::i(self.per_prod as i64)).with("prefill", J::i(self.prefill as i64)).with("requester_delay_steps", J::i(self.delay as i64)).with("fresh_wakers", J::Bool(self.fresh_wakers)).with("cancel_all_streams_right_before_the_request", J::Bool(self.cancel_first)).with("streams_created_first_and_dropped_uncancelled_before_the_run", J::i(self.predropped as i64)).with("ended_streams_replaced_at_once_by_new_ones", J::Bool(self.replace))
+            .with("events_per_producer", J::i(self.per_prod as i64)).with("prefill", J::i(self.prefill as i64)).with("requester_delay_steps", J::i(self.delay as i64)).with("fresh_wakers", J::Bool(self.fresh_wakers)).with("cancel_all_streams_right_before_the_request", J::Bool(self.cancel_first)).with("streams_created_first_and_dropped_uncancelled_before_the_run", J::i(self.predropped as i64)).with("ended_streams_replaced_at_once_by_new_ones", J::Bool(self.replace)).with("streams_dropped_while_their_thread_unwinds_from_a_panic", J::Bool(self.unwind_drops))
     }
 }
 
@@ -64,7 +66,7 @@ pub fn draw_cfg(rng: &mut Rng, only: Option<&str>, end_all: bool) -> Cfg {
     let entries: Vec<Entry> = (0..nprod).map(|_| *rng.pick(&es)).collect();
     let predropped = if kind != Kind::MultiMmap && streams < m && rng.chance(1, 3) { 1 + rng.below((m - streams) as u64) as usize } else { 0 };
     let replace = matches!(req, Req::End(_)) && streams == m && rng.chance(1, 2);
-    Cfg { kind, n, m, streams, req, entries, per_prod, prefill, delay: rng.below(40) as u32, fresh_wakers: rng.chance(1, 3), predropped, replace, cancel_first: end_all && rng.chance(1, 3) }
+    Cfg { kind, n, m, streams, req, entries, per_prod, prefill, delay: rng.below(40) as u32, fresh_wakers: rng.chance(1, 3), predropped, replace, cancel_first: end_all && rng.chance(1, 3), unwind_drops: !cfg!(miri) && rng.chance(1, 5) }
 }
 
 pub fn block_on_paused<F: std::future::Future>(f: F) -> F::Output {
@@ -83,6 +85,7 @@ pub fn one_run(cfg: &Cfg, rc: &RunCfg, acc: &mut Acc) -> (Option<J>, u64, bool) 
     let mut accepted_prefill: Vec<u64> = Vec::new();
     for i in 0..cfg.prefill as u64 { if crate::drive::send_via(&*ch, Entry::Send, 0x800 + i) == chan::SendRes::Ok { accepted_prefill.push(0x800 + i) } }
     let clogs: Vec<Arc<ConsLog>> = (0..cfg.streams).map(|_| Arc::new(ConsLog::default())).collect();
+    if cfg.unwind_drops { for l in &clogs { l.drop_while_unwinding.store(true, SeqCst) } acc.count("runs_in_which_streams_are_dropped_while_their_thread_unwinds_from_a_panic", 1) }
     let plogs: Vec<Arc<ProdLog>> = cfg.entries.iter().map(|_| Arc::new(ProdLog::default())).collect();
     let done = Arc::new(AtomicU32::new(0));
     let n_to_wait = cfg.entries.len() as u32 + 1;                 // producers + the requester
